@@ -10,6 +10,22 @@ def _poly(expr, env):
     return eval(expr, {'__builtins__': {}}, env)      # strings come from our own sympy printer
 
 
+def _circle(env, solver):
+    """c_k^2 + s_k^2 = 1 for every angle that occurs, r2 = sqrt(2)"""
+    import re
+    sufs = set()
+    for v in list(env):
+        m = re.fullmatch(r'[cs](\d*)', v)
+        if m:
+            sufs.add(m.group(1))
+    for suf in sufs:
+        ck = env.setdefault('c' + suf, z3.Real('c' + suf))
+        sk = env.setdefault('s' + suf, z3.Real('s' + suf))
+        solver.add(ck * ck + sk * sk == 1)
+    if 'r2' in env:
+        solver.add(env['r2'] * env['r2'] == 2, env['r2'] > 0)
+
+
 def discharge(res, tier):
     out = {'status': 'ok', 'obligations': 0, 'discharged': 0, 'failed': [], 'unknown': [], 'samples': [],
            'solver_time_total_s': 0.0, 'solver_time_max_s': 0.0, 'functions': set(), 'wall_native_s': res.get('wall_s')}
@@ -34,14 +50,10 @@ def discharge(res, tier):
         out['obligations'] += 1
         if 'all_zero_unsat' in ob:
             env = {v: z3.Real(v) for v in ob['vars']}
+            env['pi'] = z3.Real('pi')
             sol = z3.Solver()
             sol.set('timeout', timeout)
-            if 'c' in env or 's' in env:
-                env.setdefault('c', z3.Real('c'))
-                env.setdefault('s', z3.Real('s'))
-                sol.add(env['c'] * env['c'] + env['s'] * env['s'] == 1)
-            if 'r2' in env:
-                sol.add(env['r2'] * env['r2'] == 2, env['r2'] > 0)
+            _circle(env, sol)
             for z in ob['all_zero_unsat']:
                 sol.add(_poly(z, env) == 0)
             r = sol.check()
@@ -62,14 +74,10 @@ def discharge(res, tier):
                                        'normal_form': 'all entries reduce to 0 syntactically'})
             continue
         env = {v: z3.Real(v) for v in ob['vars']}
+        env['pi'] = z3.Real('pi')    # pi as a free real: the identities hold for any value of the constant
         s = z3.Solver()
         s.set('timeout', timeout)
-        if 'c' in env or 's' in env:
-            env.setdefault('c', z3.Real('c'))
-            env.setdefault('s', z3.Real('s'))
-            s.add(env['c'] * env['c'] + env['s'] * env['s'] == 1)
-        if 'r2' in env:
-            s.add(env['r2'] * env['r2'] == 2, env['r2'] > 0)
+        _circle(env, s)
         s.add(z3.Or(*[_poly(z.replace('^', '**'), env) != 0 for z in ob['zero']]))
         t0 = time.time()
         r = s.check()
@@ -90,6 +98,7 @@ def discharge(res, tier):
                                   'native_confirmed': bool(ob.get('numeric'))})
         else:
             out['unknown'].append(ob['name'])
+    out['skipped'] = res.get('skipped', [])
     out['functions'] = sorted(out['functions'])
     out['solver_time_total_s'] = round(out['solver_time_total_s'], 3)
     out['solver_time_max_s'] = round(out['solver_time_max_s'], 3)
